@@ -168,7 +168,7 @@ class SecuritySystem(System):
                     yield [[c], list(x)]
         # runs of adjacent raw constructs (siblings) — the scrub loop must visit all of them
         inl = ["htmlinline", "htmlinline3", "hardbreak-html", "rawrole"]
-        blk = ["htmlblock", "rawdir", "rst-raw", "admon", "comment", "hardbreak-para", "footnote-html"]
+        blk = ["htmlblock", "rawdir", "rst-raw", "admon", "comment", "hardbreak-para", "footnote-html", "strike", "strike-nested"]
         for n in (2, 3, 4) if self.depth >= 2 else (2, 3):
             for combo in itertools.product(blk, repeat=n):
                 if n >= 3 and len(set(combo)) > 2:
